@@ -145,6 +145,8 @@ RecompFails(r) ==
      Fails("declared", r.declared = want) \cup
      Fails("lookup_payload", r.lookups = r.tiles) \cup
      Fails("stream_payload", r.walk_ok = 1 /\ r.walk = r.tiles) \cup
+     \* C02 for the (re)compressing reader: the stream delivers the very bytes the lookups deliver
+     Fails("stream_bytes_eq_lookup", r.walk_ok = 0 \/ r.walk_raw = r.lookup_raw) \cup
      Fails("file_payload", r.file.skip = 1 \/ (r.file.ok = 1 /\ r.file.tiles = r.tiles /\ r.file.tc = want)) \cup
      Fails("file_meta", r.file.skip = 1 \/ r.file.ok = 0 \/ r.file.meta_name = RecompMetaName))
 =============================================================================
